@@ -133,18 +133,19 @@ theorem roundtrip_subexpr_partial (e : Expr) (hwf : WF e) (outer : Nat) (side : 
 
 /-! ## Literals -/
 
-/-- **literal_roundtrip_partial** (token level). Every non-negative integer literal of every kind and both booleans
+/-- **literal_roundtrip_partial** (token level). Every non-negative integer literal of every kind (within the range
+the suffix admits) and both booleans
 print as one token carrying the same kind and value; so does every non-negative float in the modelled (dyadic) subset.
 What is *not* proved here: that the printed digits are the value (Rust `Display`, trusted) and that the lexer reads
 digits back exactly (C10 `int_value_exact` / `lex_float_nearest`); `decimal_roundtrip` below is the digit-level core. -/
 theorem literal_roundtrip_partial :
-    (∀ v, LitOk ⟨.IntUntyped, false, v⟩ = true ∧ LitOk ⟨.IntUnsigned32, false, v⟩ = true ∧
-          LitOk ⟨.IntUnsigned64, false, v⟩ = true ∧ LitOk ⟨.IntSigned64, false, v⟩ = true) ∧
+    (∀ v, LitOk ⟨.IntUntyped, false, v⟩ = true ∧ (v < 2 ^ 32 → LitOk ⟨.IntUnsigned32, false, v⟩ = true) ∧
+          LitOk ⟨.IntUnsigned64, false, v⟩ = true ∧ (v < 2 ^ 63 → LitOk ⟨.IntSigned64, false, v⟩ = true)) ∧
     LitOk ⟨.Bool, false, 0⟩ = true ∧ LitOk ⟨.Bool, false, 1⟩ = true ∧
     (∀ bits q, eighths? 11 52 bits = some q → LitOk ⟨.FloatUntyped, false, bits⟩ = true ∧ LitOk ⟨.Float64, false, bits⟩ = true) ∧
     (∀ bits q, eighths? 8 23 bits = some q → LitOk ⟨.Float32, false, bits⟩ = true ∧ LitOk ⟨.Float16, false, bits⟩ = true) := by
   refine ⟨fun v => ⟨?_, ?_, ?_, ?_⟩, ?_, ?_, fun bits q h => ⟨?_, ?_⟩, fun bits q h => ⟨?_, ?_⟩⟩ <;>
-    simp [LitOk, litPieces, floatPieces, *]
+    (try intro hv) <;> simp [LitOk, litPieces, floatPieces, litTooLarge, *] <;> omega
 
 /-- **Negation for negative literals, all of them.** A negative 64-bit integer literal and a float literal with the
 sign bit set (other than zero) print as `-` followed by the non-negative literal — two tokens, which the parser reads
